@@ -228,6 +228,7 @@ def pick_K(w, budget, kmin=2, kmax=6):
     """Largest K in [kmin, kmax] such that the number of complete behaviours init * dom^K stays within budget."""
     a, b = WD.n_cases(w)
     K = kmin
+    kmax = min(kmax, w["struct"].get("maxK", kmax))  # (worlds whose rationals grow fast state their own depth limit: 32-bit arithmetic)
     while K < kmax and a * b ** (K + 1) <= budget:
         K += 1
     return K
